@@ -19,8 +19,8 @@ typedef struct {
   int knock;			/* 0 none, 1 -avx2, 2 -sse2 */
 } Vec;
 
-static const char *ovals[] = { "mmx", "sse", "avx", "c", "neon", "bogus" };
-#define NOVALS 6
+static const char *ovals[] = { "mmx", "sse", "avx", "c", "neon", "bogus", "" };
+#define NOVALS 7
 static const char *knocks[] = { NULL, "-avx2", "-sse2" };
 
 static Vec cur;
